@@ -61,7 +61,9 @@ fn weight_unit(name: &str) -> Option<WeightUnit> {
 
 impl Restr {
     fn n_models(&self) -> usize {
-        (!self.classes.is_empty()) as usize + (!self.vehicle_rows.is_empty()) as usize + self.turns.is_some() as usize
+        (!self.classes.is_empty()) as usize
+            + (!self.vehicle_rows.is_empty()) as usize
+            + self.turns.is_some() as usize
     }
     pub fn query(&self) -> Value {
         let mut q = json!({});
@@ -88,17 +90,25 @@ impl Restr {
         let _ = std::fs::create_dir_all(&d);
         let w = |name: &str, text: String| -> Result<String, String> {
             let p = d.join(name);
-            std::fs::write(&p, text).map_err(|e| format!("harness: cannot write {}: {}", name, e))?;
+            std::fs::write(&p, text)
+                .map_err(|e| format!("harness: cannot write {}: {}", name, e))?;
             Ok(p.to_str().unwrap_or("").to_string())
         };
         let mut entries: Vec<Value> = vec![];
         // vehicle rows: one file, or two (mode 3)
         let row_text = |rows: &[RawRestriction], spread: bool| -> String {
             // columns are found by their names: layout 2 lists them in another order (unit, value, edge, name)
-            let mut t = String::from(if spread { "restriction_unit,restriction_value,edge_id,restriction_name\n" } else { "edge_id,restriction_name,restriction_value,restriction_unit\n" });
+            let mut t = String::from(if spread {
+                "restriction_unit,restriction_value,edge_id,restriction_name\n"
+            } else {
+                "edge_id,restriction_name,restriction_value,restriction_unit\n"
+            });
             for (i, r) in rows.iter().enumerate() {
                 if spread && i > 0 && m > 1 {
-                    t.push_str(&format!("meters,1000000,{},maximum_height\n", (r.edge + 1) % m));
+                    t.push_str(&format!(
+                        "meters,1000000,{},maximum_height\n",
+                        (r.edge + 1) % m
+                    ));
                 }
                 if spread {
                     t.push_str(&format!("{},{},{},{}\n", r.unit, r.value, r.edge, r.kind));
@@ -110,7 +120,11 @@ impl Restr {
         };
         let swapped = self.from_files == 2;
         let turn_text = |pairs: &[(usize, usize)]| -> String {
-            let mut t = String::from(if swapped { "next_edge_id,prev_edge_id\n" } else { "prev_edge_id,next_edge_id\n" });
+            let mut t = String::from(if swapped {
+                "next_edge_id,prev_edge_id\n"
+            } else {
+                "prev_edge_id,next_edge_id\n"
+            });
             for (a, b) in pairs {
                 if swapped {
                     t.push_str(&format!("{},{}\n", b, a));
@@ -148,10 +162,21 @@ impl Restr {
                 entries.push(json!({"type": "turn_restriction", "turn_restriction_input_file": w("turns_b.csv", turn_text(&t[h..]))?}));
             }
         }
-        let combined = CombinedBuilder { builders: HashMap::new() }
-            .register_builder("road_class".to_string(), std::rc::Rc::new(RoadClassBuilder {}))
-            .register_builder("vehicle_restriction".to_string(), std::rc::Rc::new(VehicleRestrictionBuilder {}))
-            .register_builder("turn_restriction".to_string(), std::rc::Rc::new(TurnRestrictionBuilder {}));
+        let combined = CombinedBuilder {
+            builders: HashMap::new(),
+        }
+        .register_builder(
+            "road_class".to_string(),
+            std::rc::Rc::new(RoadClassBuilder {}),
+        )
+        .register_builder(
+            "vehicle_restriction".to_string(),
+            std::rc::Rc::new(VehicleRestrictionBuilder {}),
+        )
+        .register_builder(
+            "turn_restriction".to_string(),
+            std::rc::Rc::new(TurnRestrictionBuilder {}),
+        );
         let built = match entries.len() {
             0 => return Ok(Arc::new(NoRestriction {})),
             1 if !split => match entries[0]["type"].as_str() {
@@ -173,25 +198,43 @@ impl Restr {
         let mut inner: Vec<Arc<dyn FrontierModelService>> = vec![];
         if !self.classes.is_empty() {
             let mapping: HashMap<String, u8> = self.class_names.iter().cloned().collect();
-            let parser: RoadClassParser = serde_json::from_value(json!({"mapping": mapping})).unwrap_or_default();
-            inner.push(Arc::new(RoadClassFrontierService { road_class_lookup: Arc::new(self.classes.clone().into_boxed_slice()), road_class_parser: parser }));
+            let parser: RoadClassParser =
+                serde_json::from_value(json!({"mapping": mapping})).unwrap_or_default();
+            inner.push(Arc::new(RoadClassFrontierService {
+                road_class_lookup: Arc::new(self.classes.clone().into_boxed_slice()),
+                road_class_parser: parser,
+            }));
         }
         if !self.vehicle_rows.is_empty() {
             let mut lookup: HashMap<EdgeId, Vec<VehicleRestriction>> = HashMap::new();
             for r in self.vehicle_rows.iter() {
-                let v: VehicleRestriction = serde_json::from_value(json!({r.kind.clone(): [r.value, r.unit]})).expect("restriction row");
+                let v: VehicleRestriction =
+                    serde_json::from_value(json!({r.kind.clone(): [r.value, r.unit]}))
+                        .expect("restriction row");
                 lookup.entry(EdgeId(r.edge)).or_default().push(v);
             }
-            inner.push(Arc::new(VehicleRestrictionFrontierService { vehicle_restriction_lookup: Arc::new(lookup) }));
+            inner.push(Arc::new(VehicleRestrictionFrontierService {
+                vehicle_restriction_lookup: Arc::new(lookup),
+            }));
         }
         if let Some(t) = &self.turns {
-            let set: HashSet<RestrictedEdgePair> = t.iter().map(|(a, b)| RestrictedEdgePair { prev_edge_id: EdgeId(*a), next_edge_id: EdgeId(*b) }).collect();
-            inner.push(Arc::new(TurnRestrictionFrontierService { restricted_edge_pairs: Arc::new(set) }));
+            let set: HashSet<RestrictedEdgePair> = t
+                .iter()
+                .map(|(a, b)| RestrictedEdgePair {
+                    prev_edge_id: EdgeId(*a),
+                    next_edge_id: EdgeId(*b),
+                })
+                .collect();
+            inner.push(Arc::new(TurnRestrictionFrontierService {
+                restricted_edge_pairs: Arc::new(set),
+            }));
         }
         match inner.len() {
             0 => Arc::new(NoRestriction {}),
             1 => inner.remove(0),
-            _ => Arc::new(CombinedFrontierService { inner_services: inner }),
+            _ => Arc::new(CombinedFrontierService {
+                inner_services: inner,
+            }),
         }
     }
     /// reference: Some(true) permitted, Some(false) forbidden, None = on the equality boundary (skipped)
@@ -207,7 +250,11 @@ impl Restr {
                         a.iter()
                             .filter_map(|v| match v {
                                 Value::Number(n) => n.as_u64().map(|x| x as u8),
-                                Value::String(s) => self.class_names.iter().find(|(n, _)| n == s).map(|(_, c)| *c),
+                                Value::String(s) => self
+                                    .class_names
+                                    .iter()
+                                    .find(|(n, _)| n == s)
+                                    .map(|(_, c)| *c),
                                 _ => None,
                             })
                             .collect()
@@ -233,12 +280,20 @@ impl Restr {
                 let unit = vp[field][1].as_str().unwrap_or("");
                 let (vehicle_si, limit_si) = if is_weight {
                     let vu = weight_unit(unit).map(|u| ru::weight_kg(&u)).unwrap_or(1.0);
-                    let lu = weight_unit(&r.unit).map(|u| ru::weight_kg(&u)).unwrap_or(1.0);
-                    let axles = if per_axle { vp["number_of_axles"].as_f64().unwrap_or(1.0) } else { 1.0 };
+                    let lu = weight_unit(&r.unit)
+                        .map(|u| ru::weight_kg(&u))
+                        .unwrap_or(1.0);
+                    let axles = if per_axle {
+                        vp["number_of_axles"].as_f64().unwrap_or(1.0)
+                    } else {
+                        1.0
+                    };
                     (val * vu / axles, r.value * lu)
                 } else {
                     let vu = dist_unit(unit).map(|u| ru::distance_m(&u)).unwrap_or(1.0);
-                    let lu = dist_unit(&r.unit).map(|u| ru::distance_m(&u)).unwrap_or(1.0);
+                    let lu = dist_unit(&r.unit)
+                        .map(|u| ru::distance_m(&u))
+                        .unwrap_or(1.0);
                     (val * vu, r.value * lu)
                 };
                 if (vehicle_si - limit_si).abs() <= 1e-3 * limit_si.abs() {
@@ -256,7 +311,14 @@ impl Restr {
     }
 }
 
-pub fn check_case(w: &World, r: &Restr, algo: &Algo, orient: &Orient, reverse: bool, st: &mut Stats) {
+pub fn check_case(
+    w: &World,
+    r: &Restr,
+    algo: &Algo,
+    orient: &Orient,
+    reverse: bool,
+    st: &mut Stats,
+) {
     st.evaluations += 1;
     st.transitions += 1;
     st.traces += 1;
@@ -264,7 +326,9 @@ pub fn check_case(w: &World, r: &Restr, algo: &Algo, orient: &Orient, reverse: b
     let query = r.query();
     let sm = Arc::new(w.state_model());
     let case = || case_json(w, algo, orient, reverse, json!({"restrictions": r}));
-    let size = net.size() + (r.n_models() * 3 + r.vehicle_rows.len() + r.turns.as_ref().map_or(0, |t| t.len())) as u64;
+    let size = net.size()
+        + (r.n_models() * 3 + r.vehicle_rows.len() + r.turns.as_ref().map_or(0, |t| t.len()))
+            as u64;
     let service = match crate::engine::guarded(|| r.service(net.m())) {
         Ok(Ok(s)) => s,
         Ok(Err(e)) if e.starts_with("harness") => {
@@ -272,7 +336,13 @@ pub fn check_case(w: &World, r: &Restr, algo: &Algo, orient: &Orient, reverse: b
             return;
         }
         Ok(Err(e)) => {
-            st.violation("frontier_builder", "builds_from_valid_configuration", size, || e.clone(), case);
+            st.violation(
+                "frontier_builder",
+                "builds_from_valid_configuration",
+                size,
+                || e.clone(),
+                case,
+            );
             return;
         }
         Err(p) => {
@@ -283,19 +353,44 @@ pub fn check_case(w: &World, r: &Restr, algo: &Algo, orient: &Orient, reverse: b
     let model = match crate::engine::guarded(|| service.build(&query, sm.clone())) {
         Ok(Ok(m)) => m,
         Ok(Err(e)) => {
-            st.violation("frontier_service.build", "builds_from_valid_query", size, || e.to_string(), case);
+            st.violation(
+                "frontier_service.build",
+                "builds_from_valid_query",
+                size,
+                || e.to_string(),
+                case,
+            );
             return;
         }
         Err(p) => {
-            st.violation("frontier_service.build", "no_panic", size, || p.clone(), case);
+            st.violation(
+                "frontier_service.build",
+                "no_panic",
+                size,
+                || p.clone(),
+                case,
+            );
             return;
         }
     };
-    let model = if r.cut.is_empty() { model } else { Arc::new(EdgeCutFrontierModel::new(model, r.cut.iter().map(|e| EdgeId(*e)).collect())) };
+    let model = if r.cut.is_empty() {
+        model
+    } else {
+        Arc::new(EdgeCutFrontierModel::new(
+            model,
+            r.cut.iter().map(|e| EdgeId(*e)).collect(),
+        ))
+    };
     let si = match w.si_with(model) {
         Ok(si) => si,
         Err(e) => {
-            st.violation("harness", "si_build", 0, || e.clone(), || json!({"world": w}));
+            st.violation(
+                "harness",
+                "si_build",
+                0,
+                || e.clone(),
+                || json!({"world": w}),
+            );
             return;
         }
     };
@@ -304,7 +399,11 @@ pub fn check_case(w: &World, r: &Restr, algo: &Algo, orient: &Orient, reverse: b
     let kinds = format!(
         "{}{}{}{}",
         if !r.classes.is_empty() { "class+" } else { "" },
-        if !r.vehicle_rows.is_empty() { "vehicle+" } else { "" },
+        if !r.vehicle_rows.is_empty() {
+            "vehicle+"
+        } else {
+            ""
+        },
         if r.turns.is_some() { "turn+" } else { "" },
         if !r.cut.is_empty() { "cut+" } else { "" }
     );
@@ -312,14 +411,25 @@ pub fn check_case(w: &World, r: &Restr, algo: &Algo, orient: &Orient, reverse: b
     let base = format!(
         "{}.{}.{}",
         algo.component(),
-        if matches!(orient, Orient::Vertex { .. }) { "vertex" } else { "edge" },
+        if matches!(orient, Orient::Vertex { .. }) {
+            "vertex"
+        } else {
+            "edge"
+        },
         if reverse { "reverse" } else { "forward" }
     );
     match &out {
-        Outcome::Panic(p) => st.violation(&format!("{}.{}", base, kinds), "no_panic", size, || p.clone(), case),
+        Outcome::Panic(p) => st.violation(
+            &format!("{}.{}", base, kinds),
+            "no_panic",
+            size,
+            || p.clone(),
+            case,
+        ),
         Outcome::Ok { routes, trees, .. } => {
             let edge_oriented = matches!(orient, Orient::Edge { .. });
-            let forbidden_somewhere = (0..net.m()).any(|e| r.permitted(e) == Some(false)) || r.turns.as_ref().map_or(false, |t| !t.is_empty());
+            let forbidden_somewhere = (0..net.m()).any(|e| r.permitted(e) == Some(false))
+                || r.turns.as_ref().map_or(false, |t| !t.is_empty());
             if forbidden_somewhere {
                 st.nontrivial += 1;
             }
@@ -335,7 +445,13 @@ pub fn check_case(w: &World, r: &Restr, algo: &Algo, orient: &Orient, reverse: b
                     match r.permitted(*e) {
                         Some(false) => {
                             edges_ok = false;
-                            st.violation(&format!("{}.{}", base, kinds), "route_uses_only_permitted_edges", size, || format!("route #{} {:?} uses forbidden edge {}", ri, ids, e), case);
+                            st.violation(
+                                &format!("{}.{}", base, kinds),
+                                "route_uses_only_permitted_edges",
+                                size,
+                                || format!("route #{} {:?} uses forbidden edge {}", ri, ids, e),
+                                case,
+                            );
                         }
                         None => st.skipped_boundary += 1,
                         _ => {}
@@ -346,7 +462,11 @@ pub fn check_case(w: &World, r: &Restr, algo: &Algo, orient: &Orient, reverse: b
                 }
                 if let Some(t) = &r.turns {
                     // consecutive pairs in travel order
-                    let travel: Vec<usize> = if reverse { ids.iter().rev().cloned().collect() } else { ids.clone() };
+                    let travel: Vec<usize> = if reverse {
+                        ids.iter().rev().cloned().collect()
+                    } else {
+                        ids.clone()
+                    };
                     let mut ok = true;
                     for (i, p) in travel.windows(2).enumerate() {
                         if t.contains(&(p[0], p[1])) {
@@ -360,7 +480,20 @@ pub fn check_case(w: &World, r: &Restr, algo: &Algo, orient: &Orient, reverse: b
                             } else {
                                 "searched_turn"
                             };
-                            st.violation(&format!("{}.{}", base, site), "route_takes_no_restricted_turn", size, || format!("route #{} (travel order {:?}) takes restricted turn {:?}", ri, travel, (p[0], p[1])), case);
+                            st.violation(
+                                &format!("{}.{}", base, site),
+                                "route_takes_no_restricted_turn",
+                                size,
+                                || {
+                                    format!(
+                                        "route #{} (travel order {:?}) takes restricted turn {:?}",
+                                        ri,
+                                        travel,
+                                        (p[0], p[1])
+                                    )
+                                },
+                                case,
+                            );
                         }
                     }
                     if ok {
@@ -380,7 +513,13 @@ pub fn check_case(w: &World, r: &Restr, algo: &Algo, orient: &Orient, reverse: b
                     }
                     if r.permitted(t.edge) == Some(false) {
                         ok = false;
-                        st.violation(&format!("{}.{}.tree{}", base, kinds, ti), "tree_uses_only_permitted_edges", size, || format!("tree entry {} uses forbidden edge {}", t.vertex, t.edge), case);
+                        st.violation(
+                            &format!("{}.{}.tree{}", base, kinds, ti),
+                            "tree_uses_only_permitted_edges",
+                            size,
+                            || format!("tree entry {} uses forbidden edge {}", t.vertex, t.edge),
+                            case,
+                        );
                     }
                 }
                 if ok {
@@ -414,44 +553,120 @@ pub fn restrictions(net: &Net, tier: Tier) -> Vec<Restr> {
     let names = vec![("local".to_string(), 0u8), ("highway".to_string(), 1u8)];
     // road classes: table patterns x allowed sets
     let tables: Vec<Vec<u8>> = if tier == Tier::Thorough && m <= 5 {
-        (0..(1u32 << m)).map(|mask| (0..m).map(|e| (mask >> e & 1) as u8).collect()).collect()
+        (0..(1u32 << m))
+            .map(|mask| (0..m).map(|e| (mask >> e & 1) as u8).collect())
+            .collect()
     } else {
-        vec![(0..m).map(|e| (e % 2) as u8).collect(), (0..m).map(|e| ((e + idx) % 3 == 0) as u8).collect(), (0..m).map(|e| (e == 0) as u8).collect()]
+        vec![
+            (0..m).map(|e| (e % 2) as u8).collect(),
+            (0..m).map(|e| ((e + idx) % 3 == 0) as u8).collect(),
+            (0..m).map(|e| (e == 0) as u8).collect(),
+        ]
     };
     for (ti, t) in tables.iter().enumerate() {
         // (the empty set allows nothing; no key at all means no restriction)
-        for (qi, q) in [Some(json!([0])), Some(json!([1])), Some(json!([0, 1])), Some(json!(["highway"])), Some(json!(["local", "highway"])), None, Some(json!([]))].iter().enumerate() {
+        for (qi, q) in [
+            Some(json!([0])),
+            Some(json!([1])),
+            Some(json!([0, 1])),
+            Some(json!(["highway"])),
+            Some(json!(["local", "highway"])),
+            None,
+            Some(json!([])),
+        ]
+        .iter()
+        .enumerate()
+        {
             if tier == Tier::Quick && (ti + qi + idx) % 2 != 0 {
                 continue;
             }
-            out.push(Restr { classes: t.clone(), query_classes: q.clone(), class_names: names.clone(), ..Default::default() });
+            out.push(Restr {
+                classes: t.clone(),
+                query_classes: q.clone(),
+                class_names: names.clone(),
+                ..Default::default()
+            });
         }
     }
     // tables that hold a class the name mapping does not mention (7): sets that cover every mapped class, by name and by
     // number, in either order and with a further number, still exclude it
     {
-        let t7: Vec<Vec<u8>> = vec![(0..m).map(|e| [0u8, 1, 7][(e + idx) % 3]).collect(), (0..m).map(|e| if e == idx % m { 7 } else { (e % 2) as u8 }).collect()];
+        let t7: Vec<Vec<u8>> = vec![
+            (0..m).map(|e| [0u8, 1, 7][(e + idx) % 3]).collect(),
+            (0..m)
+                .map(|e| if e == idx % m { 7 } else { (e % 2) as u8 })
+                .collect(),
+        ];
         for (ti, t) in t7.iter().enumerate() {
-            for (qi, q) in [json!(["local", "highway"]), json!(["highway", "local"]), json!([0, 1]), json!([1, 0, 3]), json!([0, 1, 7])].iter().enumerate() {
+            for (qi, q) in [
+                json!(["local", "highway"]),
+                json!(["highway", "local"]),
+                json!([0, 1]),
+                json!([1, 0, 3]),
+                json!([0, 1, 7]),
+            ]
+            .iter()
+            .enumerate()
+            {
                 if tier == Tier::Quick && (ti + qi + idx) % 3 != 0 {
                     continue;
                 }
-                out.push(Restr { classes: t.clone(), query_classes: Some(q.clone()), class_names: names.clone(), ..Default::default() });
+                out.push(Restr {
+                    classes: t.clone(),
+                    query_classes: Some(q.clone()),
+                    class_names: names.clone(),
+                    ..Default::default()
+                });
             }
         }
     }
     // vehicle restrictions: each of the six kinds on one or two edges; limit and vehicle one step apart in different units
     let rows = |e: usize, k: usize| -> RawRestriction {
         match k % 6 {
-            0 => RawRestriction { edge: e, kind: "maximum_height".into(), value: 4.0, unit: "meters".into() },           // 13 ft ok, 13.5 ft exceeds
-            1 => RawRestriction { edge: e, kind: "maximum_total_weight".into(), value: 10.0, unit: "tons".into() },       // 9071.8 kg
-            2 => RawRestriction { edge: e, kind: "maximum_weight_per_axle".into(), value: 5000.0, unit: "pounds".into() }, // 2268 kg per axle
-            3 => RawRestriction { edge: e, kind: "maximum_length".into(), value: 18.0, unit: "meters".into() },           // 60 ft = 18.29 m exceeds
-            4 => RawRestriction { edge: e, kind: "maximum_width".into(), value: 100.0, unit: "inches".into() },           // 2.5 m = 98.4 in ok
-            _ => RawRestriction { edge: e, kind: "maximum_trailer_length".into(), value: 48.0, unit: "feet".into() },     // 15 m = 49.2 ft exceeds
+            0 => RawRestriction {
+                edge: e,
+                kind: "maximum_height".into(),
+                value: 4.0,
+                unit: "meters".into(),
+            }, // 13 ft ok, 13.5 ft exceeds
+            1 => RawRestriction {
+                edge: e,
+                kind: "maximum_total_weight".into(),
+                value: 10.0,
+                unit: "tons".into(),
+            }, // 9071.8 kg
+            2 => RawRestriction {
+                edge: e,
+                kind: "maximum_weight_per_axle".into(),
+                value: 5000.0,
+                unit: "pounds".into(),
+            }, // 2268 kg per axle
+            3 => RawRestriction {
+                edge: e,
+                kind: "maximum_length".into(),
+                value: 18.0,
+                unit: "meters".into(),
+            }, // 60 ft = 18.29 m exceeds
+            4 => RawRestriction {
+                edge: e,
+                kind: "maximum_width".into(),
+                value: 100.0,
+                unit: "inches".into(),
+            }, // 2.5 m = 98.4 in ok
+            _ => RawRestriction {
+                edge: e,
+                kind: "maximum_trailer_length".into(),
+                value: 48.0,
+                unit: "feet".into(),
+            }, // 15 m = 49.2 ft exceeds
         }
     };
-    let vehicles = [vehicle(13.0, 9000.0, 4), vehicle(13.5, 9000.0, 4), vehicle(13.0, 9200.0, 4), vehicle(13.0, 9000.0, 3)];
+    let vehicles = [
+        vehicle(13.0, 9000.0, 4),
+        vehicle(13.5, 9000.0, 4),
+        vehicle(13.0, 9200.0, 4),
+        vehicle(13.0, 9000.0, 3),
+    ];
     for k in 0..6 {
         for (vi, v) in vehicles.iter().enumerate() {
             if tier == Tier::Quick && (k + vi + idx) % 3 != 0 {
@@ -462,7 +677,11 @@ pub fn restrictions(net: &Net, tier: Tier) -> Vec<Restr> {
             if m > 1 {
                 rws.push(rows((e + 1) % m, k + 1));
             }
-            out.push(Restr { vehicle_rows: rws, vehicle: Some(v.clone()), ..Default::default() });
+            out.push(Restr {
+                vehicle_rows: rws,
+                vehicle: Some(v.clone()),
+                ..Default::default()
+            });
         }
     }
     // vehicles that exceed exactly one of the four length-type limits while all their other length-type parameters are smaller
@@ -485,7 +704,11 @@ pub fn restrictions(net: &Net, tier: Tier) -> Vec<Restr> {
                 continue;
             }
             let e = (ki + which + idx) % m;
-            out.push(Restr { vehicle_rows: vec![rows(e, *k)], vehicle: Some(special(which)), ..Default::default() });
+            out.push(Restr {
+                vehicle_rows: vec![rows(e, *k)],
+                vehicle: Some(special(which)),
+                ..Default::default()
+            });
         }
     }
     // several rows on the same edge: every pair of kinds (and one triple), so that a vehicle can exceed one limit of an edge
@@ -506,7 +729,11 @@ pub fn restrictions(net: &Net, tier: Tier) -> Vec<Restr> {
                 if (k1 + k2) % 3 == 0 {
                     rws.push(rows(e, k1 + k2 + 1));
                 }
-                out.push(Restr { vehicle_rows: rws, vehicle: Some(v.clone()), ..Default::default() });
+                out.push(Restr {
+                    vehicle_rows: rws,
+                    vehicle: Some(v.clone()),
+                    ..Default::default()
+                });
             }
         }
     }
@@ -523,16 +750,37 @@ pub fn restrictions(net: &Net, tier: Tier) -> Vec<Restr> {
         let mut cnt = 0usize;
         for (ti, (kind, a, b)) in twice.iter().enumerate() {
             for lax_first in [true, false] {
-                for (vi, v) in [vehicle(13.5, 9000.0, 4), vehicle(13.0, 8000.0, 4)].iter().enumerate() {
+                for (vi, v) in [vehicle(13.5, 9000.0, 4), vehicle(13.0, 8000.0, 4)]
+                    .iter()
+                    .enumerate()
+                {
                     cnt += 1;
                     if tier == Tier::Quick && (cnt + idx) % 8 != 0 {
                         continue;
                     }
                     let e = (ti + vi + idx) % m;
-                    let ra = RawRestriction { edge: e, kind: kind.to_string(), value: a.0, unit: a.1.into() };
-                    let rb = RawRestriction { edge: e, kind: kind.to_string(), value: b.0, unit: b.1.into() };
-                    let rws = if lax_first { vec![ra, rb] } else { vec![rb, ra] };
-                    out.push(Restr { vehicle_rows: rws, vehicle: Some(v.clone()), ..Default::default() });
+                    let ra = RawRestriction {
+                        edge: e,
+                        kind: kind.to_string(),
+                        value: a.0,
+                        unit: a.1.into(),
+                    };
+                    let rb = RawRestriction {
+                        edge: e,
+                        kind: kind.to_string(),
+                        value: b.0,
+                        unit: b.1.into(),
+                    };
+                    let rws = if lax_first {
+                        vec![ra, rb]
+                    } else {
+                        vec![rb, ra]
+                    };
+                    out.push(Restr {
+                        vehicle_rows: rws,
+                        vehicle: Some(v.clone()),
+                        ..Default::default()
+                    });
                 }
             }
         }
@@ -546,26 +794,65 @@ pub fn restrictions(net: &Net, tier: Tier) -> Vec<Restr> {
             }
         }
     }
-    out.push(Restr { turns: Some(vec![]), ..Default::default() });
+    out.push(Restr {
+        turns: Some(vec![]),
+        ..Default::default()
+    });
     for (pi, p) in pairs.iter().enumerate() {
-        out.push(Restr { turns: Some(vec![*p]), ..Default::default() });
+        out.push(Restr {
+            turns: Some(vec![*p]),
+            ..Default::default()
+        });
         if let Some(q) = pairs.get(pi + 1) {
             if tier == Tier::Thorough || (pi + idx) % 2 == 0 {
-                out.push(Restr { turns: Some(vec![*p, *q]), ..Default::default() });
+                out.push(Restr {
+                    turns: Some(vec![*p, *q]),
+                    ..Default::default()
+                });
             }
         }
     }
     // combined models (2-3 inner) and cut edges
     let t0: Vec<u8> = (0..m).map(|e| (e % 2) as u8).collect();
-    out.push(Restr { classes: t0.clone(), query_classes: Some(json!([0])), class_names: names.clone(), vehicle_rows: vec![rows(idx % m, 0)], vehicle: Some(vehicles[1].clone()), ..Default::default() });
+    out.push(Restr {
+        classes: t0.clone(),
+        query_classes: Some(json!([0])),
+        class_names: names.clone(),
+        vehicle_rows: vec![rows(idx % m, 0)],
+        vehicle: Some(vehicles[1].clone()),
+        ..Default::default()
+    });
     if let Some(p) = pairs.first() {
-        out.push(Restr { classes: t0.clone(), query_classes: Some(json!([0, 1])), class_names: names.clone(), turns: Some(vec![*p]), ..Default::default() });
-        out.push(Restr { classes: t0.clone(), query_classes: Some(json!(["local"])), class_names: names.clone(), vehicle_rows: vec![rows((idx + 1) % m, 1)], vehicle: Some(vehicles[2].clone()), turns: Some(vec![*p]), ..Default::default() });
+        out.push(Restr {
+            classes: t0.clone(),
+            query_classes: Some(json!([0, 1])),
+            class_names: names.clone(),
+            turns: Some(vec![*p]),
+            ..Default::default()
+        });
+        out.push(Restr {
+            classes: t0.clone(),
+            query_classes: Some(json!(["local"])),
+            class_names: names.clone(),
+            vehicle_rows: vec![rows((idx + 1) % m, 1)],
+            vehicle: Some(vehicles[2].clone()),
+            turns: Some(vec![*p]),
+            ..Default::default()
+        });
     }
     for e in 0..m {
         if tier == Tier::Thorough || (e + idx) % 2 == 0 {
-            out.push(Restr { cut: vec![e], ..Default::default() });
-            out.push(Restr { classes: t0.clone(), query_classes: Some(json!([0, 1])), class_names: names.clone(), cut: vec![e], ..Default::default() });
+            out.push(Restr {
+                cut: vec![e],
+                ..Default::default()
+            });
+            out.push(Restr {
+                classes: t0.clone(),
+                query_classes: Some(json!([0, 1])),
+                class_names: names.clone(),
+                cut: vec![e],
+                ..Default::default()
+            });
         }
     }
     out
@@ -575,11 +862,21 @@ pub fn algos(tier: Tier) -> Vec<Algo> {
     let mut v = vec![
         Algo::Dijkstra,
         Algo::AStar(Some(1.0)),
-        Algo::SingleVia { k: 3, under: Box::new(Algo::Dijkstra), sim: Some(Sim::EdgeCos(0.99)), term: None },
+        Algo::SingleVia {
+            k: 3,
+            under: Box::new(Algo::Dijkstra),
+            sim: Some(Sim::EdgeCos(0.99)),
+            term: None,
+        },
     ];
     if tier == Tier::Thorough {
         v.push(Algo::AStar(Some(10.0)));
-        v.push(Algo::SingleVia { k: 2, under: Box::new(Algo::AStar(Some(1.0))), sim: Some(Sim::DistCos(0.9)), term: None });
+        v.push(Algo::SingleVia {
+            k: 2,
+            under: Box::new(Algo::AStar(Some(1.0))),
+            sim: Some(Sim::DistCos(0.9)),
+            term: None,
+        });
     }
     v
 }
@@ -596,18 +893,68 @@ pub fn for_net(net: &Net, tier: Tier, st: &mut Stats) {
         if r.n_models() > 0 && (ri + idx) % tier.pick(40, 8) == 0 {
             let mut r2 = r.clone();
             r2.from_files = 1 + ((ri + idx) / tier.pick(40, 8) % 3) as u8;
-            for algo in [Algo::Dijkstra, Algo::SingleVia { k: 3, under: Box::new(Algo::Dijkstra), sim: Some(Sim::EdgeCos(0.99)), term: None }].iter() {
-                check_case(&w, &r2, algo, &Orient::Vertex { o: 0, d: Some(n - 1) }, false, st);
+            for algo in [
+                Algo::Dijkstra,
+                Algo::SingleVia {
+                    k: 3,
+                    under: Box::new(Algo::Dijkstra),
+                    sim: Some(Sim::EdgeCos(0.99)),
+                    term: None,
+                },
+            ]
+            .iter()
+            {
+                check_case(
+                    &w,
+                    &r2,
+                    algo,
+                    &Orient::Vertex {
+                        o: 0,
+                        d: Some(n - 1),
+                    },
+                    false,
+                    st,
+                );
                 if !algo.is_ksp() {
                     check_case(&w, &r2, algo, &Orient::Vertex { o: 0, d: None }, false, st);
-                    check_case(&w, &r2, algo, &Orient::Vertex { o: 0, d: Some(n - 1) }, true, st);
+                    check_case(
+                        &w,
+                        &r2,
+                        algo,
+                        &Orient::Vertex {
+                            o: 0,
+                            d: Some(n - 1),
+                        },
+                        true,
+                        st,
+                    );
                 }
             }
         }
         for algo in algos(tier).iter() {
-            check_case(&w, r, algo, &Orient::Vertex { o: 0, d: Some(n - 1) }, false, st);
+            check_case(
+                &w,
+                r,
+                algo,
+                &Orient::Vertex {
+                    o: 0,
+                    d: Some(n - 1),
+                },
+                false,
+                st,
+            );
             if !algo.is_ksp() {
-                check_case(&w, r, algo, &Orient::Vertex { o: 0, d: Some(n - 1) }, true, st);
+                check_case(
+                    &w,
+                    r,
+                    algo,
+                    &Orient::Vertex {
+                        o: 0,
+                        d: Some(n - 1),
+                    },
+                    true,
+                    st,
+                );
                 check_case(&w, r, algo, &Orient::Vertex { o: 0, d: None }, false, st);
             }
             for o in 0..m {
@@ -629,15 +976,64 @@ pub fn for_net(net: &Net, tier: Tier, st: &mut Stats) {
 pub fn specs(tier: Tier) -> Vec<GenSpec> {
     match tier {
         Tier::Quick => vec![
-            GenSpec { n: 3, max_edges: 5, max_mult: 2, n_len: 1, self_loops: true, mode: LenMode::Alphabet },
-            GenSpec { n: 4, max_edges: 4, max_mult: 2, n_len: 2, self_loops: false, mode: LenMode::Alphabet },
-            GenSpec { n: 4, max_edges: 5, max_mult: 1, n_len: 1, self_loops: false, mode: LenMode::PowersOfTwo },
+            GenSpec {
+                n: 3,
+                max_edges: 5,
+                max_mult: 2,
+                n_len: 1,
+                self_loops: true,
+                mode: LenMode::Alphabet,
+            },
+            GenSpec {
+                n: 4,
+                max_edges: 4,
+                max_mult: 2,
+                n_len: 2,
+                self_loops: false,
+                mode: LenMode::Alphabet,
+            },
+            GenSpec {
+                n: 4,
+                max_edges: 5,
+                max_mult: 1,
+                n_len: 1,
+                self_loops: false,
+                mode: LenMode::PowersOfTwo,
+            },
         ],
         Tier::Thorough => vec![
-            GenSpec { n: 3, max_edges: 5, max_mult: 2, n_len: 2, self_loops: true, mode: LenMode::Alphabet },
-            GenSpec { n: 4, max_edges: 5, max_mult: 2, n_len: 1, self_loops: true, mode: LenMode::Alphabet },
-            GenSpec { n: 4, max_edges: 5, max_mult: 1, n_len: 2, self_loops: false, mode: LenMode::Metric },
-            GenSpec { n: 5, max_edges: 5, max_mult: 1, n_len: 1, self_loops: false, mode: LenMode::PowersOfTwo },
+            GenSpec {
+                n: 3,
+                max_edges: 5,
+                max_mult: 2,
+                n_len: 2,
+                self_loops: true,
+                mode: LenMode::Alphabet,
+            },
+            GenSpec {
+                n: 4,
+                max_edges: 5,
+                max_mult: 2,
+                n_len: 1,
+                self_loops: true,
+                mode: LenMode::Alphabet,
+            },
+            GenSpec {
+                n: 4,
+                max_edges: 5,
+                max_mult: 1,
+                n_len: 2,
+                self_loops: false,
+                mode: LenMode::Metric,
+            },
+            GenSpec {
+                n: 5,
+                max_edges: 5,
+                max_mult: 1,
+                n_len: 1,
+                self_loops: false,
+                mode: LenMode::PowersOfTwo,
+            },
         ],
     }
 }
@@ -648,7 +1044,14 @@ pub fn specs(tier: Tier) -> Vec<GenSpec> {
 /// does not come back is C13's business and only counted here
 fn yens_cases(tier: Tier) -> Vec<(Net, Restr)> {
     use crate::refmodel::graph::{bellman_ford, simple_paths};
-    let spec = GenSpec { n: 5, max_edges: tier.pick(6, 7), max_mult: 1, n_len: 1, self_loops: false, mode: LenMode::PowersOfTwo };
+    let spec = GenSpec {
+        n: 5,
+        max_edges: tier.pick(6, 7),
+        max_mult: 1,
+        n_len: 1,
+        self_loops: false,
+        mode: LenMode::PowersOfTwo,
+    };
     let mut out = vec![];
     for (p, t) in crate::world::net::shards(&spec, 2) {
         crate::world::net::for_each_in_shard(&spec, &p, t, &mut |net| {
@@ -667,7 +1070,17 @@ fn yens_cases(tier: Tier) -> Vec<(Net, Restr)> {
             if paths.len() < 2 {
                 return;
             }
-            let best = paths.iter().min_by(|a, b| a.iter().map(|e| w.ref_edge_cost(None, *e)).sum::<f64>().partial_cmp(&b.iter().map(|e| w.ref_edge_cost(None, *e)).sum::<f64>()).unwrap()).unwrap().clone();
+            let best = paths
+                .iter()
+                .min_by(|a, b| {
+                    a.iter()
+                        .map(|e| w.ref_edge_cost(None, *e))
+                        .sum::<f64>()
+                        .partial_cmp(&b.iter().map(|e| w.ref_edge_cost(None, *e)).sum::<f64>())
+                        .unwrap()
+                })
+                .unwrap()
+                .clone();
             if best.len() < 3 {
                 return;
             }
@@ -677,9 +1090,23 @@ fn yens_cases(tier: Tier) -> Vec<(Net, Restr)> {
                     continue;
                 }
                 let r = if (idx + e) % 2 == 0 {
-                    Restr { classes: (0..m).map(|x| (x == e) as u8).collect(), query_classes: Some(json!([0])), class_names: vec![("local".to_string(), 0u8), ("highway".to_string(), 1u8)], ..Default::default() }
+                    Restr {
+                        classes: (0..m).map(|x| (x == e) as u8).collect(),
+                        query_classes: Some(json!([0])),
+                        class_names: vec![("local".to_string(), 0u8), ("highway".to_string(), 1u8)],
+                        ..Default::default()
+                    }
                 } else {
-                    Restr { vehicle_rows: vec![RawRestriction { edge: e, kind: "maximum_height".into(), value: 4.0, unit: "meters".into() }], vehicle: Some(vehicle(13.5, 9000.0, 4)), ..Default::default() }
+                    Restr {
+                        vehicle_rows: vec![RawRestriction {
+                            edge: e,
+                            kind: "maximum_height".into(),
+                            value: 4.0,
+                            unit: "meters".into(),
+                        }],
+                        vehicle: Some(vehicle(13.5, 9000.0, 4)),
+                        ..Default::default()
+                    }
                 };
                 out.push((net.clone(), r));
             }
@@ -689,7 +1116,11 @@ fn yens_cases(tier: Tier) -> Vec<(Net, Restr)> {
 }
 
 pub fn worker(args: &[String]) -> i32 {
-    let tier = if args.first().map(|s| s.as_str()) == Some("thorough") { Tier::Thorough } else { Tier::Quick };
+    let tier = if args.first().map(|s| s.as_str()) == Some("thorough") {
+        Tier::Thorough
+    } else {
+        Tier::Quick
+    };
     let cases = yens_cases(tier);
     crate::engine::sandbox::worker_loop(|i, st| {
         let (net, r) = &cases[i as usize];
@@ -697,8 +1128,23 @@ pub fn worker(args: &[String]) -> i32 {
         st.states += 1;
         for k in [2usize, 3] {
             let mut scratch = Stats::new();
-            let algo = Algo::Yens { k, under: Box::new(Algo::Dijkstra), sim: Some(Sim::AcceptAll), term: None };
-            check_case(&w, r, &algo, &Orient::Vertex { o: 0, d: Some(net.n - 1) }, false, &mut scratch);
+            let algo = Algo::Yens {
+                k,
+                under: Box::new(Algo::Dijkstra),
+                sim: Some(Sim::AcceptAll),
+                term: None,
+            };
+            check_case(
+                &w,
+                r,
+                &algo,
+                &Orient::Vertex {
+                    o: 0,
+                    d: Some(net.n - 1),
+                },
+                false,
+                &mut scratch,
+            );
             // panics and errors of Yen's algorithm itself are C13's known findings: only the permission clauses count here
             scratch.violations.retain(|k, _| !k.ends_with("/no_panic"));
             st.merge(scratch);
@@ -736,7 +1182,14 @@ pub fn run(tier: Tier) -> i32 {
     // restricted turns where plain A* reaches an expanded vertex again over a cheaper edge (edges recorded shorter than the
     // straight line between their end points make the estimate inconsistent at weight factor 1): the turn into an outgoing edge
     // was validated against the label the vertex had when it was expanded
-    let sspecs = vec![GenSpec { n: 5, max_edges: tier.pick(4, 5), max_mult: 1, n_len: 3, self_loops: false, mode: LenMode::LineShort }];
+    let sspecs = vec![GenSpec {
+        n: 5,
+        max_edges: tier.pick(4, 5),
+        max_mult: 1,
+        n_len: 3,
+        self_loops: false,
+        mode: LenMode::LineShort,
+    }];
     let st_short = par_enumerate(&sspecs, |_spec, net, st| {
         st.states += 1;
         let m = net.m();
@@ -750,9 +1203,22 @@ pub fn run(tier: Tier) -> i32 {
             }
         }
         for p in pairs.iter() {
-            let r = Restr { turns: Some(vec![*p]), ..Default::default() };
+            let r = Restr {
+                turns: Some(vec![*p]),
+                ..Default::default()
+            };
             for algo in [Algo::AStar(None), Algo::AStar(Some(1.0))].iter() {
-                check_case(&w, &r, algo, &Orient::Vertex { o: 0, d: Some(net.n - 1) }, false, st);
+                check_case(
+                    &w,
+                    &r,
+                    algo,
+                    &Orient::Vertex {
+                        o: 0,
+                        d: Some(net.n - 1),
+                    },
+                    false,
+                    st,
+                );
                 check_case(&w, &r, algo, &Orient::Vertex { o: 0, d: None }, false, st);
             }
         }
@@ -761,7 +1227,12 @@ pub fn run(tier: Tier) -> i32 {
     st.merge(yst);
     st.notes.insert(format!("yens pass: {} cases (network x one forbidden edge off the least-cost route) x k in {{2, 3}} in worker processes; {} did not come back within 100 ms (termination of Yen's algorithm is C13's business)", n_yens, yfates.len()));
     let mut desc: Vec<String> = specs.iter().map(|s| s.describe()).collect();
-    desc.extend(sspecs.iter().map(|s| format!("{} x every single restricted turn under plain A* (inconsistent estimate)", s.describe())));
+    desc.extend(sspecs.iter().map(|s| {
+        format!(
+            "{} x every single restricted turn under plain A* (inconsistent estimate)",
+            s.describe()
+        )
+    }));
     finish(
         &info,
         st,
@@ -784,7 +1255,10 @@ pub fn replay(case: &Value) -> i32 {
         }
     };
     let algo: Algo = serde_json::from_value(case["algo"].clone()).unwrap_or(Algo::Dijkstra);
-    let orient: Orient = serde_json::from_value(case["orient"].clone()).unwrap_or(Orient::Vertex { o: 0, d: Some(w.net.n - 1) });
+    let orient: Orient = serde_json::from_value(case["orient"].clone()).unwrap_or(Orient::Vertex {
+        o: 0,
+        d: Some(w.net.n - 1),
+    });
     let reverse = case["reverse"].as_bool().unwrap_or(false);
     let r: Restr = match serde_json::from_value(case["extra"]["restrictions"].clone()) {
         Ok(r) => r,
@@ -798,6 +1272,14 @@ pub fn replay(case: &Value) -> i32 {
     for (k, g) in st.violations.iter() {
         println!("REPLAY-VIOLATION {} {}", k, g.detail);
     }
-    println!("replay: {} violated clauses; outcomes {:?}", st.violations.len(), st.outcomes);
-    if st.violations.is_empty() { 0 } else { 1 }
+    println!(
+        "replay: {} violated clauses; outcomes {:?}",
+        st.violations.len(),
+        st.outcomes
+    );
+    if st.violations.is_empty() {
+        0
+    } else {
+        1
+    }
 }
